@@ -6,7 +6,7 @@ from .. import hx
 ID = "C03"
 LEVEL = "model_checking"
 BOUNDS = {
-    "quick": "two trains with 0..3 spikes each; 3+3 for max_tau=None/MRTS omitted/py, n1+n2 <= 5 when one or two of "
+    "quick": "two trains with 0..3 spikes each plus the asymmetric pairs (0|1|2)+5 in both orders (max_tau None, MRTS omitted); 3+3 for max_tau=None/MRTS omitted/py, n1+n2 <= 5 when one or two of "
              "(max_tau symbolic > 0, MRTS symbolic > 0, backend pyx) apply, n1+n2 <= 4 when all three apply; "
              "max_tau=0 up to n1+n2 <= 4 (same code path as None)",
     "thorough": "two trains with 0..3 spikes each, all size pairs, all of max_tau in {None, 0, symbolic > 0} x MRTS in "
@@ -36,6 +36,17 @@ def configs(tier):
                         yield dict(name="%s-mt%s-m%s-%d+%d" % (be, mt, mk, n1, n2), backend=be,
                                    mt=mt, m=mk, n1=n1, n2=n2, cost=5 ** (n1 + n2) * (2 if mk == "pos" else 1),
                                    split_forks=(9 if n1 + n2 >= 5 else None))
+        # asymmetric pairs with one long train (code that only triggers from 4-5 spikes on)
+        for (n1, n2) in LONG[tier]:
+            for mt, mk in ((("none", "omit"),) if tier == "quick" else (("none", "omit"), ("pos", "omit"), ("none", "pos"))):
+                if mk == "pos" and max(n1, n2) > 5:
+                    continue
+                yield dict(name="%s-mt%s-m%s-%d+%d" % (be, mt, mk, n1, n2), backend=be, mt=mt, m=mk, n1=n1, n2=n2,
+                           cost=5 ** (min(n1, n2) + 3) * (4 if mk == "pos" else 1), split_forks=(9 if min(n1, n2) >= 2 else None))
+
+
+LONG = {"quick": [(1, 5), (5, 1), (0, 5), (5, 0), (2, 5), (5, 2)],
+        "thorough": [(1, 5), (5, 1), (0, 5), (5, 0), (2, 5), (5, 2), (1, 6), (6, 1)]}
 
 
 def controls(tier):
